@@ -2,6 +2,7 @@
    Statements only; proofs in Proofs/FormatP.v, Proofs/RenderP.v. *)
 From Coq Require Import String List NArith Bool.
 From GF Require Import Base.Res Base.Bytes Model.Msg Model.Pb Model.Json Model.Render Spec.JsonGrammar Spec.ParseIP Proofs.FormatP Proofs.RenderP Proofs.ParseIPP Proofs.Utf8P.
+From GF Require Import Model.Cfg Model.Format Proofs.FormatGP.
 Import ListNotations.
 Open Scope N_scope.
 
@@ -94,4 +95,82 @@ Example c13_nonvacuous :
   dec_varint (enc_varint 300 ++ [7]) = Some (300, [7]) /\
   split_frames 100 (frame [1;2;3] ++ frame [] ++ frame [9]) = Some [[1;2;3]; []; [9]] /\
   esc_string [97; 34; 10; 92] = [34; 97; 92; 34; 92; 110; 92; 92; 34].
+Proof. vm_compute. repeat split. Qed.
+
+(* ---- ANY formatter configuration (Model/Format.v: field list and order, renames, every registered renderer
+   on every kind of column, virtual fields, custom protobuf fields scalar / array; the model is compared byte
+   for byte with MarshalJSON / MarshalText under generated mapping files on every run) ---- *)
+
+(* for EVERY compiled configuration whose output names need no escaping and EVERY message: the JSON form is one
+   well-formed RFC 8259 object -- whatever bytes the string-rendered values hold *)
+Theorem c13_json_any_config_valid : forall c m out,
+  names_plain c -> format_json c m = Some out -> json_value out.
+Proof. exact format_json_valid. Qed.
+Print Assumptions c13_json_any_config_valid.
+
+(* its keys are the configured fields that are written for this message, under their configured names, in
+   configured order *)
+Theorem c13_keys_configured_order : forall c m ms,
+  format_members c m (cFields c) = Some ms ->
+  map fst ms = map (fun s => bytes_of_string (final_name c s)) (filter (written c m) (cFields c)).
+Proof. exact format_json_keys. Qed.
+Print Assumptions c13_keys_configured_order.
+
+(* which are written: a field of the message struct always, ... *)
+Theorem c13_struct_field_always_written : forall c m s j g col k,
+  struct_by_go (remap (cCustoms c) s) = Some (j, g, col, k) -> format_field c m s <> Some None.
+Proof. exact struct_field_written. Qed.
+Print Assumptions c13_struct_field_always_written.
+
+(* ... a declared custom field only when the flow carries it, whatever renderer is configured for it, ... *)
+Theorem c13_custom_only_when_carried : forall c m s,
+  is_custom (cCustoms c) s = true -> struct_by_go s = None ->
+  unk_value (cCustoms c) (unk m) s None = Some None ->
+  format_field c m s = Some None.
+Proof. exact custom_absent_not_written. Qed.
+Print Assumptions c13_custom_only_when_carried.
+
+(* ... and always when it does *)
+Theorem c13_custom_written_when_carried : forall c m s v,
+  struct_by_go (remap (cCustoms c) s) = None ->
+  unk_value (cCustoms c) (unk m) s None = Some (Some v) ->
+  format_field c m s <> Some None.
+Proof. exact custom_present_written. Qed.
+Print Assumptions c13_custom_written_when_carried.
+
+(* JSON and text are two writings of one list of members *)
+Theorem c13_text_json_same_members : forall c m,
+  match format_members c m (cFields c) with
+  | Some ms => format_json c m = Some (123 :: intersperse [44] (map show_member_u ms) ++ [125]) /\
+               format_text c m = Some (intersperse [32] (map (fun kv => fst kv ++ [61] ++ show_text_val (snd kv)) ms))
+  | None => format_json c m = None /\ format_text c m = None
+  end.
+Proof. exact formats_same_members. Qed.
+Print Assumptions c13_text_json_same_members.
+
+(* non-vacuity: a mapping file with a field list, a rename, renderers, a virtual field and two custom fields
+   compiles; a message carrying one of the custom fields (twice: it is an array) is written as expected *)
+Local Open Scope string_scope.
+Definition ex_customs : list custom :=
+  [{| cName := "cust0"; cIndex := 1001; cType := PTVarint; cArray := true |};
+   {| cName := "cust1"; cIndex := 1002; cType := PTString; cArray := false |}].
+Definition ex_afmt : afmt :=
+  {| fFields := ["src_addr"; "cust0"; "time_received_ns"; "cust1"; "icmp_name"; "proto"; "dst_addr"];
+     fRename := [("proto", "protocol")];
+     fRender := [("time_received_ns", "datetimenano"); ("cust1", "etype"); ("dst_addr", "none")] |}.
+Definition ex_msg : msg :=
+  madd_unk (madd_unk
+    (msetI (msetB (msetB (msetI empty_msg cProto 6) cSrcAddr [10;0;0;1]) cDstAddr [10;0;0;2]) cTimeRecv 1700000000123000000)
+    {| uNum := 1001; uVarint := true; uInt := 7; uBytes := [] |})
+    {| uNum := 1001; uVarint := true; uInt := 9; uBytes := [] |}.
+Example c13_any_config_nonvacuous :
+  match compile_fmt ex_afmt ex_customs with
+  | Some c =>
+      forallb (fun s => plain_key (bytes_of_string (final_name c s))) (cFields c) = true /\
+      format_json c ex_msg = Some (bytes_of_string
+        "{""src_addr"":""10.0.0.1"",""cust0"":[7,9],""time_received_ns"":""2023-11-14T22:13:20.123Z"",""icmp_name"":""unknown"",""protocol"":""TCP"",""dst_addr"":""0a000002""}") /\
+      format_text c ex_msg = Some (bytes_of_string
+        "src_addr=10.0.0.1 cust0=[7,9] time_received_ns=2023-11-14T22:13:20.123Z icmp_name=unknown protocol=TCP dst_addr=0a000002")
+  | None => False
+  end.
 Proof. vm_compute. repeat split. Qed.
